@@ -89,8 +89,16 @@ def run_check(ctx):
         recs = tlc.read_dump(dump) + tlc.read_dump(ddump)
     except ValueError as e:
         raise MachineryError("TLC dump unreadable: %s" % e)
+    # a finished call is dumped when it is reached and again by its stuttering step: keep one copy
+    seen, uniq_recs = set(), []
+    for x in recs:
+        k = json.dumps(x, sort_keys=True)
+        if k not in seen:
+            seen.add(k)
+            uniq_recs.append(x)
+    recs = uniq_recs
     trec = [x for x in recs if "qf" in x]
-    if len(trec) != 2:
+    if len(trec) != 1:
         raise MachineryError("no interface table dumped")
     table = Q.Table(trec[0])
     table.check_header(funcs)
